@@ -12,7 +12,8 @@
 //!       prop <subject name> <object name> <class|->
 //!       rgrant <scope> <cons>                      (actions are fixed: every read-side permission)
 //!       mask <none|attributes|name>                (which member the Grants' field mask hides)
-//!       q <command text with {id:NAME} placeholders>
+//!       q <command text; <<id:NAME>> = that element's id in the store at hand, <<seq:K>> / <<seqmid:K>> = the Space
+//!          sequence after step K / between creating and classifying the element of step K>
 //!       page <limit> <command text>                (run, then follow the cursor once)
 use crate::wire::*;
 use crate::{fresh, CaseOut};
@@ -63,7 +64,12 @@ enum Item { Elem(usize), Prop(usize) }
 
 /// what one built store knows about the names of the case
 #[derive(Default)]
-struct Built { ids: BTreeMap<String, String>, schema_refs: BTreeMap<String, String>, prop_ids: Vec<Option<String>> }
+struct Built { ids: BTreeMap<String, String>, schema_refs: BTreeMap<String, String>, prop_ids: Vec<Option<String>>, seq_mid: Vec<u64>, seq_end: Vec<u64> }
+
+async fn seq_now(owner: &Session) -> Result<u64, String> {
+    let r = exec(owner, "SNAPSHOT", None).await;
+    r.first_result().and_then(|v| v["snapshot_seq"].as_u64()).ok_or_else(|| "no snapshot_seq".to_string())
+}
 
 fn covers(bound: &[String], v: &str) -> bool { bound.is_empty() || (!v.is_empty() && bound.iter().any(|b| b == v)) }
 
@@ -98,8 +104,21 @@ async fn classify(owner: &Session, id: &str, class: &str) -> Result<(), String> 
 }
 
 /// canonical text of a response: rows / hit names in order, error code, whether a cursor follows
-fn canon(r: &Response) -> String {
+fn canon_history(v: &Value, ids: &BTreeMap<String, String>) -> Option<String> {
+    let arr = v.as_array()?;
+    if arr.is_empty() || !arr.iter().all(|e| e.get("changes").is_some() && e.get("tx_id").is_some()) { return None; }
+    let name_of = |id: &str| ids.iter().find(|(_, v)| v.as_str() == id).map(|(k, _)| k.clone()).unwrap_or_else(|| format!("<{id}>"));
+    let entries: Vec<String> = arr.iter().map(|e| {
+        let mut ch: Vec<String> = e["changes"].as_array().map(|a| a.iter().map(|c| format!("{}:{}:v{}", name_of(c["id"].as_str().unwrap_or("?")), c["op"].as_str().unwrap_or("?"), c["version"])).collect()).unwrap_or_default();
+        ch.sort();
+        format!("{}[{}]", e["transaction_class"].as_str().unwrap_or("?"), ch.join(","))
+    }).collect();
+    Some(format!("history{{{}}}", entries.join(";")))
+}
+
+fn canon(r: &Response, ids: &BTreeMap<String, String>) -> String {
     if r.status != TopLevelStatus::Succeeded { return format!("err:{}", error_code(r)); }
+    if let Some(h) = r.first_result().and_then(|v| canon_history(v, ids)) { return format!("ok {h}"); }
     let next = r.results.first().and_then(|x| x.next_cursor.clone()).or(r.next_cursor.clone());
     let body = match r.first_result() {
         Some(Value::Object(o)) if o.contains_key("hits") => {
@@ -117,16 +136,29 @@ fn canon(r: &Response) -> String {
     format!("ok {body} next={}", next.is_some() as u8)
 }
 
+fn subst_seqs(text: &str, b: &Built) -> String {
+    let mut t = text.to_string();
+    for (tag, table) in [("<<seqmid:", &b.seq_mid), ("<<seq:", &b.seq_end)] {
+        while let Some(i) = t.find(tag) {
+            let j = t[i..].find(">>").map(|j| i + j).unwrap_or(t.len() - 2);
+            let k: usize = t[i + tag.len()..j].parse().unwrap_or(0);
+            let v = table.get(k.min(table.len().saturating_sub(1))).copied().unwrap_or(0);
+            t.replace_range(i..j + 2, &v.to_string());
+        }
+    }
+    t
+}
+
 fn subst_ids(text: &str, ids: &BTreeMap<String, String>) -> String {
     let mut out = String::new();
     let mut rest = text;
-    while let Some(i) = rest.find("{id:") {
+    while let Some(i) = rest.find("<<id:") {
         out.push_str(&rest[..i]);
-        let tail = &rest[i + 4..];
-        let j = tail.find('}').unwrap_or(tail.len());
+        let tail = &rest[i + 5..];
+        let j = tail.find(">>").unwrap_or(tail.len());
         let name = &tail[..j];
         out.push_str(ids.get(name).map(|s| s.as_str()).unwrap_or("C-9999"));
-        rest = &tail[(j + 1).min(tail.len())..];
+        rest = &tail[(j + 2).min(tail.len())..];
     }
     out.push_str(rest);
     out
@@ -164,7 +196,9 @@ pub async fn run(ops: &[String], model: &mut Option<ModelProc>) -> Result<CaseOu
             Item::Elem(i) => {
                 let e = &elems[*i];
                 let id = create_elem(&s_owner, e, true, true).await?;
+                s.seq_mid.push(seq_now(&s_owner).await?);
                 classify(&s_owner, &id, &e.class).await?;
+                s.seq_end.push(seq_now(&s_owner).await?);
                 let el = s_nexus.store.get_element(id.parse().map_err(|_| "id")?).await.map_err(|e| format!("{e:?}"))?;
                 s.schema_refs.insert(e.name.clone(), el.schema_ref().to_string());
                 s.ids.insert(e.name.clone(), id);
@@ -173,16 +207,22 @@ pub async fn run(ops: &[String], model: &mut Option<ModelProc>) -> Result<CaseOu
                 let p = &props[*i];
                 let (Some(a), Some(b)) = (s.ids.get(&p.s), s.ids.get(&p.o)) else { return Err("prop endpoint unknown".into()) };
                 let id = create_prop(&s_owner, a, b).await?;
+                if s.prop_ids.iter().any(|x| x.as_deref() == Some(id.as_str())) { return Err("the same tuple is ensured twice (one Proposition, two specs)".into()); }
+                s.seq_mid.push(seq_now(&s_owner).await?);
                 classify(&s_owner, &id, &p.class).await?;
+                s.seq_end.push(seq_now(&s_owner).await?);
                 s.prop_ids.push(Some(id));
             }
         }
     }
     // the field mask: every top-level member of a rendered Concept except the hidden one
-    let sample_view = exec(&s_owner, "FIND(?c) WHERE { ?c CONCEPT {type: \"Person\"} } LIMIT 1", None).await;
-    let keys: Vec<String> = sample_view.first_result().and_then(|r| r.as_array()).and_then(|a| a.first()).and_then(|v| v.as_object()).map(|o| o.keys().cloned().collect()).unwrap_or_default();
+    let sample_view = exec(&s_owner, "FIND(?c) WHERE { ?c CONCEPT {} }", None).await;
+    let mut keys: Vec<String> = vec!["attributes".into(), "name".into()];
+    for v in sample_view.first_result().and_then(|r| r.as_array()).cloned().unwrap_or_default() {
+        for k in v.as_object().map(|o| o.keys().cloned().collect::<Vec<_>>()).unwrap_or_default() { if !keys.contains(&k) { keys.push(k); } }
+    }
+    keys.sort();
     let fields: Vec<String> = if mask == "none" { vec![] } else { keys.iter().filter(|k| **k != mask).cloned().collect() };
-    if mask != "none" && !keys.iter().any(|k| *k == mask) { return Err(format!("no member {mask} in a rendered Concept: {keys:?}")); }
 
     // resolve the Grants (type placeholders `@Name` → the exact schema symbol of that Type; element names → ids)
     let person_ref = |ty: &str| -> String { elems.iter().find(|e| e.ty == ty).and_then(|e| s.schema_refs.get(&e.name)).cloned().unwrap_or_else(|| ty.to_string()) };
@@ -246,48 +286,102 @@ pub async fn run(ops: &[String], model: &mut Option<ModelProc>) -> Result<CaseOu
     let r_owner = r_nexus.system_session();
     let mut rs = Built::default();
     for it in &order {
+        let before = rs.seq_end.last().copied().unwrap_or(seq_now(&r_owner).await?);
         match it {
             Item::Elem(i) if elem_readable[*i] => {
                 let e = &elems[*i];
                 let id = create_elem(&r_owner, e, mask != "name", mask != "attributes").await?;
+                rs.seq_mid.push(seq_now(&r_owner).await?);
+                classify(&r_owner, &id, &e.class).await?;
+                rs.seq_end.push(seq_now(&r_owner).await?);
                 rs.ids.insert(e.name.clone(), id);
             }
             Item::Prop(i) if prop_readable[*i] && closed => {
                 let p = &props[*i];
-                if let (Some(a), Some(b)) = (rs.ids.get(&p.s), rs.ids.get(&p.o)) { create_prop(&r_owner, a, b).await?; }
+                if let (Some(a), Some(b)) = (rs.ids.get(&p.s), rs.ids.get(&p.o)) {
+                    let id = create_prop(&r_owner, a, b).await?;
+                    rs.seq_mid.push(seq_now(&r_owner).await?);
+                    classify(&r_owner, &id, &p.class).await?;
+                    rs.seq_end.push(seq_now(&r_owner).await?);
+                    rs.ids.insert(format!("prop{i}"), id);
+                } else { rs.seq_mid.push(before); rs.seq_end.push(before); }
             }
-            _ => {}
+            _ => { rs.seq_mid.push(before); rs.seq_end.push(before); }
         }
     }
+    // names of Propositions in S, for the history canonicaliser
+    { let mut k = 0; for it in &order { if let Item::Prop(i) = it { if let Some(Some(id)) = s.prop_ids.get(k) { s.ids.insert(format!("prop{i}"), id.clone()); } k += 1; } } }
 
     // ---- the battery ------------------------------------------------------------------------------
     let mut any_nonempty = false;
     for (page, text) in &queries {
-        let touches_props = text.contains("PROPOSITION") || text.contains("COGNITION");
+        let touches_props = text.contains("PROPOSITION") || text.contains("COGNITION") || text.starts_with("HISTORY") || text.starts_with("CHANGES") || text.starts_with("EXPORT");
         if touches_props && !closed { continue; }
+        // with `name` masked the rows of this query carry no names, so a difference could not be attributed: abstain
+        if text.contains("<<seqmid:") && mask == "name" { out.hits.push("nonint:abstain-as-of-mid-with-masked-name".into()); continue; }
         let shape = text.split(" WHERE").next().unwrap_or(text).split('(').next().unwrap_or("").trim().to_string();
         out.hits.push(format!("nonint:q:{}", if text.starts_with("FIND") { "find" } else { shape.split(' ').next().unwrap_or("?") }));
         let lim = page.map(|l| format!(" LIMIT {l}")).unwrap_or_default();
-        let qa = format!("{}{lim}", subst_ids(text, &s.ids));
-        let qb = format!("{}{lim}", subst_ids(text, &rs.ids));
+        let qa = format!("{}{lim}", subst_ids(&subst_seqs(text, &s), &s.ids));
+        let qb = format!("{}{lim}", subst_ids(&subst_seqs(text, &rs), &rs.ids));
         let ra = exec(&reader, &qa, None).await;
         let rb = exec(&r_owner, &qb, None).await;
-        let (mut ca, mut cb) = (canon(&ra), canon(&rb));
+        if std::env::var("VH_C19_DEBUG").is_ok() { eprintln!("Q {qa}\n A {}\n B {}", serde_json::to_string(&ra).unwrap_or_default(), serde_json::to_string(&rb).unwrap_or_default()); }
+        let (mut ca, mut cb) = (canon(&ra, &s.ids), canon(&rb, &rs.ids));
         if page.is_some() {
             let na = ra.results.first().and_then(|x| x.next_cursor.clone());
             let nb = rb.results.first().and_then(|x| x.next_cursor.clone());
             if let (Some(na), Some(nb)) = (na, nb) {
-                ca.push_str(&format!(" | {}", canon(&exec(&reader, &format!("{qa} CURSOR \"{na}\""), None).await)));
-                cb.push_str(&format!(" | {}", canon(&exec(&r_owner, &format!("{qb} CURSOR \"{nb}\""), None).await)));
+                ca.push_str(&format!(" | {}", canon(&exec(&reader, &format!("{qa} CURSOR \"{na}\""), None).await, &s.ids)));
+                cb.push_str(&format!(" | {}", canon(&exec(&r_owner, &format!("{qb} CURSOR \"{nb}\""), None).await, &rs.ids)));
             }
         }
+        if ca.starts_with("err:") { out.hits.push(format!("nonint:answer-{}", ca.split(' ').next().unwrap_or(""))); if std::env::var("VH_C19_DEBUG").is_ok() { eprintln!("ERR {ca} <- {qa}"); } }
         if ca.starts_with("ok ") && !ca.starts_with("ok [] ") && !ca.starts_with("ok hits[] ") { any_nonempty = true; }
         if ca != cb {
-            let kind = if text.starts_with("SEARCH") { "search" } else if text.starts_with("EXPORT") { "export" } else if text.contains("COUNT(") { "count" } else if text.contains("ORDER BY") { "order" } else { "find" };
-            let via = if mask != "none" { format!("masked-{mask}") } else { "hidden-element".to_string() };
+            let hits = |c: &str| -> Vec<String> { c.split("hits[").nth(1).and_then(|t| t.split(']').next()).map(|t| t.split(',').filter(|x| !x.is_empty()).map(|x| x.to_string()).collect()).unwrap_or_default() };
+            // Keys name one exact mechanism each (known findings are matched on them); anything that is not explained
+            // by that mechanism gets a generic key and stays a plain violation.
+            let generic = |kind: &str| format!("nonint:{kind}:{}", if mask != "none" { format!("masked-{mask}") } else { "hidden-element".to_string() });
+            let term = text.split('"').nth(1).unwrap_or("").to_string();
+            let limit: usize = text.split(" LIMIT ").nth(1).and_then(|t| t.split(' ').next()).and_then(|t| t.parse().ok()).unwrap_or(10);
+            let elem_matches = |e: &ElemSpec, hide_mask: bool| -> bool {
+                let name_visible = !(hide_mask && mask == "name");
+                let attrs_visible = !(hide_mask && mask == "attributes");
+                (name_visible && e.name == term) || (attrs_visible && e.tag.as_deref() == Some(term.as_str()))
+            };
+            let key = if text.starts_with("SEARCH") {
+                let (ha, hb) = (hits(&ca), hits(&cb));
+                let hidden_matching = elems.iter().enumerate().filter(|(i, e)| !elem_readable[*i] && elem_matches(e, false)).count();
+                // every extra hit is a readable element that matches the term only through the masked member
+                let extra_explained = mask != "none" && ha.len() > hb.len() && hb.iter().all(|h| ha.contains(h))
+                    && elems.iter().enumerate().filter(|(i, e)| elem_readable[*i] && elem_matches(e, false) && !elem_matches(e, true)).count() >= ha.len() - hb.len();
+                if extra_explained { format!("nonint:search:matches-on-masked-{mask}") }
+                // hits (or the cursor that announces more) are missing, hidden elements match the term, and together with the
+                // readable matches they overflow the over-fetch window of (limit + offset) * 4 index hits
+                else if ha.len() <= hb.len() && ha.iter().all(|h| hb.contains(h)) && hidden_matching >= 1
+                    && hidden_matching + elems.iter().enumerate().filter(|(i, e)| elem_readable[*i] && elem_matches(e, false)).count() > 4 * limit
+                    && (ha.len() < hb.len() || (ca.ends_with("next=0") && cb.ends_with("next=1"))) { "nonint:search:hidden-elements-crowd-the-window".to_string() }
+                else { generic("search") }
+            } else if text.contains("<<seqmid:") {
+                // explained only if every name the two answers disagree on is an element that was (re)labelled after it was created
+                let names = |c: &str| -> Vec<String> { c.strip_prefix("ok ").and_then(|t| t.split(" next=").next()).and_then(|t| serde_json::from_str::<Vec<Value>>(t).ok()).map(|v| v.iter().filter_map(|x| x.as_str().map(|s| s.to_string())).collect()).unwrap_or_default() };
+                let (na, nb) = (names(&ca), names(&cb));
+                let relabelled = |n: &String| elems.iter().any(|e| e.name == *n && !e.class.is_empty());
+                let extra: Vec<&String> = na.iter().filter(|n| !nb.contains(n)).collect();
+                let missing: Vec<&String> = nb.iter().filter(|n| !na.contains(n)).collect();
+                if !extra.is_empty() && missing.is_empty() && extra.iter().all(|n| relabelled(n)) { "nonint:as-of:later-reclassified-element-readable-in-the-past".to_string() }
+                else if extra.is_empty() && !missing.is_empty() && missing.iter().all(|n| relabelled(n)) { "nonint:as-of:past-version-hidden-by-its-old-label".to_string() }
+                else if !extra.is_empty() && !missing.is_empty() && extra.iter().chain(missing.iter()).all(|n| relabelled(n)) { "nonint:as-of:later-reclassified-element-readable-in-the-past".to_string() }
+                else { generic("as-of") }
+            } else if mask == "name" && text.contains("CONCEPT {name: \"") && cb.starts_with("ok [] ") { "nonint:find:index-matcher-on-masked-name".to_string() }
+            else {
+                let kind = if text.starts_with("EXPORT") { "export" } else if text.contains(" AS OF ") { "as-of" } else if text.starts_with("HISTORY") || text.starts_with("CHANGES") { "history" } else if text.contains("COUNT(") { "count" } else if text.contains("ORDER BY") { "order" } else { "find" };
+                generic(kind)
+            };
             let mut ctx: Vec<String> = ops.iter().filter(|o| !o.starts_with("q ") && !o.starts_with("page ")).cloned().collect();
             ctx.push(match page { Some(l) => format!("page {l} {text}"), None => format!("q {text}") });
-            out.failures.push((format!("nonint:{kind}:{via}"), "the restricted reader's answer on S differs from the owner's answer on S restricted to what the reader may read".into(), ctx, cb, ca));
+            out.failures.push((key, "the restricted reader's answer on S differs from the owner's answer on S restricted to what the reader may read".into(), ctx, cb, ca));
         }
     }
     out.nontrivial = n_read > 0 && n_read < elems.len() && any_nonempty;
@@ -305,18 +399,22 @@ pub fn gen_case(r: &mut Rng) -> Vec<String> {
     let mut ops = vec!["mode nonint".to_string()];
     let n = 5 + r.usize(8);
     let mut classes = vec![];
+    let mut types = vec![];
     for i in 0..n {
         let class = *r.pick(&CLASSES);
         classes.push(class);
         let rank = if r.chance(1, 6) { "-".to_string() } else { r.range(0, 9).to_string() };
         let tag = if r.chance(1, 5) { "-" } else { *r.pick(&TAGS) };
         let ty = if r.chance(1, 5) { "Preference" } else { "Person" };
+        types.push(ty);
         ops.push(format!("elem n{i:02} {ty} {rank} {tag} {class}"));
     }
     let np = r.usize(6);
+    let mut pairs: Vec<(usize, usize)> = vec![];
     for _ in 0..np {
         let (a, b) = (r.usize(n), r.usize(n));
-        if a == b { continue; }
+        if a == b || types[a] != "Person" || pairs.contains(&(a, b)) { continue; } // `prefers` takes a Person subject; one Proposition per tuple
+        pairs.push((a, b));
         // at least as restricted as both endpoints, so that readable sets are closed under references
         let rk = |c: &str| class_rank(if c == "-" { "" } else { c });
         let own = *r.pick(&CLASSES);
@@ -350,7 +448,7 @@ pub fn gen_case(r: &mut Rng) -> Vec<String> {
         format!("q FIND(?c.name) WHERE {{ ?c CONCEPT {{}} FILTER(?c.attributes.rank > {k}) }} ORDER BY ?c.name"),
         format!("q FIND(COUNT(?c)) WHERE {{ ?c CONCEPT {{}} FILTER(?c.attributes.tag == \"{tag}\") }}"),
         format!("q FIND(?c.attributes.tag) WHERE {{ ?c CONCEPT {{name: \"n{probe:02}\"}} }}"),
-        format!("q FIND(COUNT(?c)) WHERE {{ ?c CONCEPT {{id: \"{{id:n{probe:02}}}\"}} }}"),
+        format!("q FIND(COUNT(?c)) WHERE {{ ?c CONCEPT {{id: \"<<id:n{probe:02}>>\"}} }}"),
         "page 2 FIND(?c.name) WHERE { ?c CONCEPT {} } ORDER BY ?c.attributes.rank ASC".to_string(),
         "page 3 FIND(?c.name) WHERE { ?c CONCEPT {type: \"Person\"} } ORDER BY ?c.name DESC".to_string(),
         "q FIND(?s.name, ?o.name) WHERE { ?p PROPOSITION (?s, \"prefers\", ?o) } ORDER BY ?s.name".to_string(),
@@ -361,6 +459,11 @@ pub fn gen_case(r: &mut Rng) -> Vec<String> {
         format!("q SEARCH CONCEPT \"{tag}\" LIMIT 1"),
         format!("q SEARCH CONCEPT \"n{probe:02}\""),
         "q EXPORT CAPSULE ?c WHERE { ?c CONCEPT {} }".to_string(),
+        "q HISTORY SPACE".to_string(),
+        "q CHANGES AFTER SEQ 0".to_string(),
+        format!("q FIND(?c.name) WHERE {{ ?c CONCEPT {{}} }} AS OF SEQ <<seq:{}>> ORDER BY ?c.name", r.usize(n)),
+        format!("q FIND(COUNT(?c)) WHERE {{ ?c CONCEPT {{type: \"Person\"}} }} AS OF SEQ <<seq:{}>>", r.usize(n)),
+        format!("q FIND(?c.name) WHERE {{ ?c CONCEPT {{}} }} AS OF SEQ <<seqmid:{}>> ORDER BY ?c.name", r.usize(n)),
     ] {
         ops.push(q);
     }
